@@ -12,17 +12,18 @@ import (
 // checkDepthCounter decides whether an input-consuming call-graph cycle is bounded by a depth counter.
 //
 // A field F is a depth counter for the cycle when
-//   (1) balance: there is an assignment of a net effect d(f) in {-1,0,+1} to every function that writes F or lies on
-//       the cycle such that a constant-propagation of "F minus its value at function entry" over every function's CFG
-//       (stores F=F±1, calls to those functions applying d, deferred calls applied at return) never joins two
-//       different values and ends every return with d(f); functions entered from outside have d = 0 - so F returns to
-//       its initial value after every message and equals, at any moment, the sum of the local deltas of the active
-//       frames;
-//   (2) no call into the cycle is made at a negative local delta;
-//   (3) every call into the cycle made while the frame holds an increment is dominated by the passing edge of a
-//       guard `F < K` (K constant);
-//   (4) the cycle's call edges made at local delta 0 form an acyclic graph: every cycle crosses a call made while its
-//       frame holds an increment, so the number of active frames is bounded by K times the number of functions.
+//
+//	(1) balance: there is an assignment of a net effect d(f) in {-1,0,+1} to every function that writes F or lies on
+//	    the cycle such that a constant-propagation of "F minus its value at function entry" over every function's CFG
+//	    (stores F=F±1, calls to those functions applying d, deferred calls applied at return) never joins two
+//	    different values and ends every return with d(f); functions entered from outside have d = 0 - so F returns to
+//	    its initial value after every message and equals, at any moment, the sum of the local deltas of the active
+//	    frames;
+//	(2) no call into the cycle is made at a negative local delta;
+//	(3) every call into the cycle made while the frame holds an increment is dominated by the passing edge of a
+//	    guard `F < K` (K constant);
+//	(4) the cycle's call edges made at local delta 0 form an acyclic graph: every cycle crosses a call made while its
+//	    frame holds an increment, so the number of active frames is bounded by K times the number of functions.
 func (p *Prog) checkDepthCounter(comp []*ssa.Function) (bool, string) {
 	inComp := map[*ssa.Function]bool{}
 	for _, f := range comp {
